@@ -31,7 +31,7 @@ import (
 	kit "verifkit"
 )
 
-const c10Rule = "case = session (IPv4 / MP-IPv6 / MP-IPv4 x iBGP / RR-client / eBGP / RS-client x add-path x 4-octet ASN) + history of <=40 Adj-RIB-Out AddPath/RemovePath calls (add, remove, Loc-RIB style replace = remove old + add new, direct replace = add over a stored path, additional add-path paths) over 2-4 related prefixes and 2-4 attribute sets (some differing only in ATOMIC_AGGREGATE / AGGREGATOR / an unknown attribute), interleaved with flush steps: one queue entry chosen from the sorted key list, or all (controlled mode), or real 1 ms ticker with generated pauses (ticker mode). Non-trivial: a remove or replace hit a prefix whose announcement was still queued."
+const c10Rule = "case = session (IPv4 / MP-IPv6 / MP-IPv4 x iBGP / RR-client / eBGP / RS-client x add-path x 4-octet ASN) + history of <=40 Adj-RIB-Out AddPath/RemovePath calls (add, remove, Loc-RIB style replace = remove old + add new, direct replace = add over a stored path, additional add-path paths) over 2-4 related prefixes and 2-4 attribute sets (some differing only in ATOMIC_AGGREGATE / AGGREGATOR / an unknown attribute; on add-path sessions some differing only in the next hop, which next-hop-self sessions advertise in one form under one path identifier), interleaved with flush steps: one queue entry chosen from the sorted key list, or all (controlled mode), or real 1 ms ticker with generated pauses (ticker mode). Non-trivial: a remove or replace hit a prefix whose announcement was still queued."
 
 // C08's removePath defect (Adj-RIB-Out looks the path up / hands it to its
 // clients in the un-rewritten Loc-RIB form) makes Dump() itself stale for
@@ -211,6 +211,14 @@ func c10GenCase(t *rapid.T, rec *kit.Recorder, c *kit.Case) c10Case {
 			// additional paths of one prefix come from different neighbours (RFC 7911);
 			// paths of one prefix that differ only in attributes outside the path-id hash are C11's subject
 			a.src = uint32(10 + i)
+			if i > 0 && rapid.IntRange(0, 2).Draw(t, fmt.Sprintf("a%d_nhtwin", i)) == 0 {
+				// ... except two paths of one neighbour that differ in the next hop only: where the session
+				// sets the next hop to itself both are advertised in one form under one path identifier
+				// (the Adj-RIB-Out keeps both and withdraws when the last one goes)
+				a = cs.attrs[rapid.IntRange(0, i-1).Draw(t, fmt.Sprintf("a%d_nhtwin_of", i))]
+				a.nh ^= 1
+				c.Class("addpath_next_hop_twin")
+			}
 		}
 		cs.attrs = append(cs.attrs, a)
 	}
